@@ -53,3 +53,31 @@ def scratch_snapshot(live, proc_kw=None, order_seed=None):
     return snapshot.take(fresh), reply
   finally:
     fresh.close()
+
+
+class ScratchHost(object):
+  """
+  A worker process that hosts successive *fresh* engine.Engine objects (props.C05_inproc.scratch):
+  each call of snapshot() builds a new Engine inside the host, loads it from the live engine's
+  metadata and data columns exactly as load_from() does through the exported calls, applies
+  Calculate and returns its snapshot. Saves one interpreter start per comparison; the host never
+  holds the engine under test. C05 re-checks every difference it sees this way in a real fresh
+  process (scratch_snapshot) before judging it.
+  """
+  def __init__(self, proc_kw=None):
+    kw = dict(proc_kw or {})
+    kw.setdefault('record', False)
+    self.proc = EngineProc(**kw)
+
+  def snapshot(self, live, order_seed=None):
+    raw = live.call('verif_snapshot', False)
+    payload = {'tables': {t: db_table(rep) for t, rep in raw.items()}}
+    self.proc.call('verif_set_order', order_seed or 0)
+    out = self.proc.call('verif_py', 'props.C05_inproc', 'scratch', payload)
+    return {t: snapshot.from_table_data(rep) for t, rep in out.items()}
+
+  def close(self):
+    try:
+      self.proc.close()
+    except Exception:      # pylint: disable=broad-except
+      self.proc.kill()
